@@ -361,7 +361,21 @@ def _run_batch(cmd, requests, hang_s=5.0, env=None, mem_kb=4_000_000, label="", 
                 try:
                     d = os.read(p.stdout.fileno(), 1 << 20)
                     if d:
+                        # (bug fix: replies that arrive only in this drain read were buffered but never parsed,
+                        # a short-lived process was then reported as 'died')
                         buf += d
+                        while b"\n" in buf:
+                            line, buf = buf.split(b"\n", 1)
+                            idx, _, rep = line.decode("utf-8", "replace").partition("\t")
+                            try:
+                                i = int(idx)
+                            except ValueError:
+                                continue
+                            if i == nxt:
+                                replies[i] = rep
+                                nxt += 1
+                        if nxt >= n:
+                            break
                         continue
                 except (BlockingIOError, OSError):
                     pass
